@@ -20,10 +20,11 @@ def parsePairs : Nat → List String → List (Nat × Nat)
     | a :: b :: rest => (nat! a, nat! b) :: parsePairs n rest
     | _ => []
 
-def lossOf : Nat → Option Loss
+def lossOf (k code sub : Nat) : Option Loss :=
+  match k with
   | 0 => some .readFail | 1 => some .writeFail | 2 => some .holdExpiry
-  | 3 => some .holdExpiryWriteErr | 4 => some .notifRecv | 5 => some .notifRecvHard
-  | 6 => some .notifSent | 7 => some .adminDown | 8 => some .prefixLimit
+  | 3 => some .holdExpiryWriteErr | 4 => some (.notifRecv code sub) | 5 => some (.notifRecv code sub)
+  | 6 => some (.notifSent code sub) | 7 => some .adminDown | 8 => some .prefixLimit
   | _ => none
 
 def nextOf : Nat → Option Next
@@ -63,8 +64,8 @@ def step (s : St) (ts : List String) : St × List String :=
                         llgr := b! llgr, ltuples := parsePairs (nat! nl) rest2 }
       ({ s with p := GR.step s.p (.est c) }, [])
     | _ => (s, ["bad-op"])
-  | ["loss", k] =>
-    match lossOf (nat! k) with
+  | ["loss", k, c, sc] =>
+    match lossOf (nat! k) (nat! c) (nat! sc) with
     | some l => ({ s with p := GR.step s.p (.loss l) }, [])
     | none => (s, ["bad-op"])
   | ["goto", n, ad] =>
@@ -76,8 +77,8 @@ def step (s : St) (ts : List String) : St × List String :=
   | ["eor", f] => ({ s with p := GR.step s.p (.eor (nat! f)) }, [])
   | ["tick", d] => ({ s with p := GR.step s.p (.tick (nat! d)) }, [])
   | ["dump"] => (s, [dump s.p])
-  | ["graceful", en, nb, k] =>
-    match lossOf (nat! k) with
+  | ["graceful", en, nb, k, c, sc] =>
+    match lossOf (nat! k) (nat! c) (nat! sc) with
     | some l => (s, [b2s (graceful (b! en) (b! nb) l)])
     | none => (s, ["bad-op"])
   | ["export", pl, st] => (s, [b2s (exportWithdraws (b! pl) (b! st))])
